@@ -119,7 +119,7 @@ STRATEGY = ('check_strategy', 'fun cb => check_strategy (fst (fst cb))')
 def run_tie(ctx, name, cases, shard=60):
   """[(case index, failing check)]; all checks are evaluated in one coqc run per shard."""
   # plain numerals (the cases file opens Z_scope): elaboration of the literals is the dominant cost
-  terms = ['(((%s : trace_case), %s), %s)' % (c[0].replace('%Z', ''), core.boollit(c[3]), c[4]) for c in cases]
+  terms = ['(((%s : trace_case), %s), %s)' % (c[0].replace('%Z', ''), core.boollit(c[3]), '(%s : list (Z * Z))' % c[4]) for c in cases]
   res = ST.run_cases_multi(ctx, name, ['Grist.Model.Sched'], CHECKS + [STRATEGY], terms, shard=shard)
   exact = len(cases) - len(res[STRATEGY[0]])
   ctx.bump('tie:engine strategy reproduces the trace exactly', exact)
@@ -303,6 +303,20 @@ def search(ctx):
     if too_many_hangs(ctx):
       return
   ctx.log('search: histories done')
+  # (a') edit sequences that create and break reference cycles (which cell is flagged depends on the order)
+  for _ in range(ctx.n(25, 250)):
+    script = cycle_break_script(ctx.rng)
+    pseeds = [ctx.rng.randrange(1 << 30) for _ in range(k)]
+    w = {'stream': 'script', 'script': script, 'pseeds': pseeds}
+    diff = compare_runs(script, pseeds)
+    ctx.count(('script', repr(script)), nontrivial=True, kind='search:cycle-break sequence')
+    ctx.bump('search:bundles', len(script) * (k + 1))
+    if diff:
+      w['pseeds'] = [diff[1]] if diff[1] is not None else []
+      w['script'] = script[:diff[0] + 1]
+      ctx.violation('nontermination' if 'did not terminate' in diff[2] else 'order_dependent', diff[2], w)
+    if too_many_hangs(ctx):
+      return
   # (b) cyclic grammar programs without handlers; (c) with handlers
   for stream, p_try, n in (('strict', 0.0, ctx.n(40, 800)), ('handlers', 0.5, ctx.n(12, 150))):
     for _ in range(n):
@@ -319,6 +333,27 @@ def search(ctx):
         ctx.violation(kind, diff[2], w)
       if too_many_hangs(ctx):
         return
+
+
+def cycle_break_script(rng):
+  """Create a reference cycle, break it at each of its columns in turn (re-creating it in between), row edits in
+  between: the generator of C18's edit sequences, as a script of bundles."""
+  from harness.props import c18
+  n = rng.choice([2, 3, 3, 4])
+  graph, steps = c18.gen_cycle_sequence(rng, n)
+  script = [[ST.table_action(c18.graph_prog(graph))], [ST.rows_action([1, 2], [1, 1])]]
+  nrows = 2
+  for st in steps:
+    if st[0] == 'mod':
+      graph = c18._set_col(graph, st[1], st[2])
+      c = ST.FCOLS[st[1]]
+      script.append([['ModifyColumn', ST.TABLE, c, {'formula': ST.py_formula(c18.graph_prog(graph)[c])}]])
+    elif st[0] == 'upd' and st[1] <= nrows:
+      script.append([['UpdateRecord', ST.TABLE, st[1], {ST.DATA: st[2]}]])
+    elif st[0] == 'add':
+      script.append([['AddRecord', ST.TABLE, None, {ST.DATA: st[1], ST.REF: 1}]])
+      nrows += 1
+  return script
 
 
 def replay_tie(w, seconds=30):
@@ -338,7 +373,9 @@ def replay_tie(w, seconds=30):
 def replay(ctx, w):
   if w.get('stream') == 'tie':
     return replay_tie(w)
-  if w.get('stream') == 'hist':
+  if w.get('stream') == 'script':
+    script = w['script']
+  elif w.get('stream') == 'hist':
     script = hist_script(w['seed'], w['nb'])
   else:
     prog = collections.OrderedDict((c, tuple_of(a)) for c, a in w['prog'].items())
